@@ -62,6 +62,7 @@ func main() {
 		}
 		sort.Strings(ids)
 		rc := 0
+		seenV := map[string]bool{}
 		for _, id := range ids {
 			cc := c.shadow()
 			cc.Prop, cc.Tier = id, *tier
@@ -80,6 +81,13 @@ func main() {
 				}
 				if !known {
 					fired[o.Rule] = true
+					if os.Getenv("SWEEP_VERBOSE") != "" {
+						k := o.Rule + "|" + o.Key
+						if !seenV[k] {
+							seenV[k] = true
+							fmt.Printf("  VIOL %s %s %s @%s :: %s %s\n", id, o.Rule, o.Key, o.Pos, o.What, o.How)
+						}
+					}
 				}
 			}
 			n := map[string]int{}
@@ -88,6 +96,9 @@ func main() {
 			}
 			for r, fl := range cc.floors {
 				if n[r] < fl {
+					if os.Getenv("SWEEP_VERBOSE") != "" {
+						fmt.Printf("  FLOOR %s %s has %d, floor %d\n", id, r, n[r], fl)
+					}
 					fired[r+"(floor)"] = true
 				}
 			}
